@@ -46,7 +46,7 @@ PROPS = {
         ],
     },
     "C18": {
-        "suites": [{"name": "wav", "quick": 1200, "thorough": 40000, "twin_first": True}],
+        "suites": [{"name": "wav", "quick": 4000, "thorough": 40000, "twin_first": True}],
         "level_text": "Lean theorems, for all inputs: the Lean PCM-WAV encoder and the model of kira's decoding path (Symphonia RIFF/WAVE "
                       "demuxer + PCM codec as modelled, kira's sample conversion, frame assembly and packet loop) are inverse for 8/16/24/32-bit "
                       "integer and 32/64-bit float, 1..26 channels, every non-zero rate and length (header, sample codes, frames, count, rate; mono "
